@@ -208,9 +208,9 @@ impl<'a, H: HashChain> InMemoryHssPublicKey<'a, H> {
     pub fn new(data: &'a [u8]) -> Option<Self> {
         let mut index = 0;
 
-        let level = u32::from_be_bytes(read_and_advance(data, 4, &mut index).try_into().unwrap());
+        let level = u32::from_be_bytes(read_and_advance(data, 4, &mut index)?.try_into().ok()?);
 
-        let public_key = InMemoryLmsPublicKey::new(&data[index..])?;
+        let public_key = InMemoryLmsPublicKey::new(data.get(index..)?)?;
 
         Some(Self {
             public_key,
